@@ -15,6 +15,7 @@ pub use scale::Encode;
 pub use scale_info::{Registry, TypeInfo};
 pub use ::scale_info as si_renamed;
 pub use std::collections::{BTreeMap, BTreeSet, BinaryHeap, VecDeque};
+pub use std::borrow::Cow;
 
 pub trait Tr {
     type A;
